@@ -529,13 +529,13 @@ func (h *hist) genOp(r *vh.Rng, nextName *int) opDesc {
 	for try := 0; try < 20; try++ {
 		k := r.Pick(100)
 		switch {
-		case len(live) < 2 || k < 38 || len(live) > 40 && k < 10:
+		case len(live) < 2 || k < 36 || len(live) > 40 && k < 10:
 			if len(live) > 40 {
 				continue
 			}
 			*nextName++
 			return genCreate(r, *nextName)
-		case k < 75:
+		case k < 80:
 			// attach a detached root somewhere outside its own tree; half of the time below a
 			// node that already has children, so that child lists get long
 			if len(h.roots) == 0 {
@@ -569,7 +569,7 @@ func (h *hist) genOp(r *vh.Rng, nextName *int) opDesc {
 				}
 			}
 			if len(cands) == 0 {
-				if r.Chance(0.5) {
+				if r.Chance(0.85) {
 					continue
 				}
 				cands = live
